@@ -76,7 +76,7 @@ def _meta_lines(rng, indent, p=0.3):
 RENAMED = {'Assets': 'Actifs', 'Liabilities': 'Passifs', 'Equity': 'Capital', 'Income': 'Revenus', 'Expenses': 'Depenses'}
 
 
-def gen_ledger(rng, ntxn=10, with_queries=True, with_pad=True, start_year=2019, nyears=3, errors_ok=False, renamed_roots=False, odd_precision=True):
+def gen_ledger(rng, ntxn=10, with_queries=True, with_pad=True, start_year=2019, nyears=3, errors_ok=False, renamed_roots=False, odd_precision=True, exotic=None):
     """Generate a loadable multi-currency ledger with lots, sales, conversions, prices,
     pad/balance, notes, events, documents, commodities, metadata, tags and links."""
     lines = ['option "title" "Generated ledger"', 'option "operating_currency" "USD"', '']
@@ -226,6 +226,46 @@ def gen_ledger(rng, ntxn=10, with_queries=True, with_pad=True, start_year=2019, 
         lines.append(f'{fy}-12-31 price {rng.choice(STOCKS)} {rng.randint(200, 400)} USD')
         if rng.random() < 0.5:
             lines.append(f'{fy}-01-15 price EUR 2.{rng.randint(10, 90)} USD')
+    if exotic is None:
+        exotic = rng.random() < 0.35
+    if exotic:
+        # unusual but legitimate content: non-ASCII and long account names, currencies with dots, dashes and digits, zero
+        # amounts, one and eight postings, total prices, the same lot twice, labels, tags and links with special characters,
+        # a custom directive, a balance assertion with a tolerance, several directives on one day, metadata on postings
+        ey = start_year + rng.randint(0, nyears - 1)
+        ed = datetime.date(ey, rng.randint(1, 12), rng.randint(1, 28))
+        long_acc = 'Assets:' + ':'.join(f'Niveau{i}' for i in range(1, 9))
+        lines += [
+            f'{open_date} open Assets:Épargne:Livret-A',
+            f'{open_date} open Expenses:Café:Crème',
+            f'{open_date} open {long_acc}',
+            f'{open_date} open Assets:Crypto  BTC.X,T-BILL,A1',
+            f'{open_date} commodity T-BILL',
+            '  name: "treasury bill"',
+            f'{ed} * "Ünïcödé päyéé" "naïve café — 日本語"  #a_b.c/d ^l.1/x-y',
+            '  Expenses:Café:Crème   4.50 EUR',
+            '  Assets:Épargne:Livret-A  -4.50 EUR',
+            f'{ed} * "zero and one"',
+            '  Assets:Cash   0.00 USD',
+            f'{ed} ! "eight postings"',
+        ] + [f'  Expenses:Food   {i}.0{i} USD' for i in range(1, 8)] + ['  Assets:Cash  -28.28 USD'] + [
+            f'{ed} * "twice the same lot"',
+            f'  Assets:Crypto   2 BTC.X {{1000.00 USD, {ed}, "lot-α"}}',
+            '    ref: "first"',
+            f'  Assets:Crypto   3 BTC.X {{1000.00 USD, {ed}, "lot-α"}}',
+            '  Assets:Cash  -5000.00 USD',
+            f'{ed} * "total price and tiny numbers"',
+            '  Assets:Crypto   7 T-BILL @@ 693.07 USD',
+            '  Assets:Crypto   0.00000001 A1 @ 123456789.00 USD',
+            '  Assets:Cash',
+            f'{ed} custom "budget" Expenses:Food "monthly" 250.00 USD TRUE {ed}',
+            f'{ed} note Assets:Épargne:Livret-A "same day, first"',
+            f'{ed} note Assets:Épargne:Livret-A "same day, second"',
+            f'{ed + datetime.timedelta(days=1)} balance Assets:Épargne:Livret-A  -4.505 ~ 0.01 EUR',
+            f'{ed + datetime.timedelta(days=1)} event "location" "Zürich"',
+            f'{ed + datetime.timedelta(days=2)} price T-BILL 99.01 USD',
+            f'{ed + datetime.timedelta(days=2)} price BTC.X 1234.5678 USD',
+        ]
     if with_pad and rng.random() < 0.5:
         pd = datetime.date(start_year, 1, 1) + datetime.timedelta(days=rng.randint(0, 300))
         lines.append(f'{pd} pad Assets:Cash Equity:Opening')
